@@ -104,6 +104,10 @@ class FnGen:
                 self.emit(ind, 'a = (a +')
                 self.emit(ind, '     (tick(%d) or 2) *' % (rng.below(90) + 1))
                 self.emit(ind, '     2)')
+        if self.opts.get('snaps') and rng.chance(1, 6):
+            # a snapshot taken from inside running profiled code (a progress callback, a periodic report)
+            self.feats.add('inner-snapshot')
+            self.emit(ind, 'snap()')
         if self.opts.get('windows') and self.kind in ('plain', 'rec') and depth > 0 and rng.chance(1, 7):
             self.feats.add('inner-window')
             self.emit(ind, 'with prof:')
@@ -293,6 +297,16 @@ class FnGen:
             for _ in range(self.rng.below(3) + 2):
                 self.stmt(1, depth)
         if self.kind == 'gen':
+            if self.rng.fork('cleanup').chance(2, 5):
+                # clean-up code that runs when the iterator is closed early (close() / abandoned after break) while suspended here
+                self.feats.add('gen-cleanup')
+                self.emit(1, 'try:')
+                self.emit(2, 'yield a')
+                self.emit(2, 'a += 1')
+                self.emit(2, 'yield a + 1')
+                self.emit(1, 'finally:')
+                self.emit(2, 'a += 2')
+                self.emit(2, 'a %= 97')
             self.emit(1, 'yield a')
         if self.kind == 'coro':
             self.emit(1, 'a += await Suspend(a % 5)')
@@ -408,6 +422,14 @@ def gen_program(rng, nfuncs=None, depth=None, nfiles=None, twins=True, twin_mode
                 d.append('        out.append(list(%s(%s)))' % (f[0], arg))
             else:
                 d.append('        out.append(drive(%s(%s)))' % (f[0], arg))
+            d.append('    except ValueError as e:')
+            d.append('        out.append(("err", str(e)))')
+        if f[1] == 'gen':
+            # the iterator is abandoned after its first item and closed: its clean-up code runs inside close()
+            d.append('    try:')
+            d.append('        it = %s(n)' % f[0])
+            d.append('        out.append(next(it, None))')
+            d.append('        it.close()')
             d.append('    except ValueError as e:')
             d.append('        out.append(("err", str(e)))')
     d.append('    return out')
